@@ -20,7 +20,7 @@ pub fn scenarios() -> Vec<Scenario> {
         name: "c01-roundtrip",
         gen,
         run,
-        quick_runs: 120_000,
+        quick_runs: 3_000_000,
         weight: 1,
         rule: "case = (valid packet, delivery schedule); non-trivial when the packet has >= 1 optional field/property/non-zero code or a body >= 128 bytes; distinct by case hash",
     }]
